@@ -126,24 +126,41 @@ func vsCase(w *vsWorld, rng *vrand, id int, mode string) *vpCase {
 	p.st = [2]*Stream{cs, ss}
 	p.dirs[1].wabs = vpDirBase
 	arrived := 0
+	// arrival of a flush = the peer's event loop has handled the fallback event AND has queued its payload on
+	// the stream (handleFallbackData counts the event BEFORE it queues the slice: waiting for the counter alone
+	// leaves a window in which the reader does not see the bytes yet)
+	base := int(atomic.LoadUint64(&w.server.stats.fallbackReadCount))
+	pendingBytes := func() int {
+		ss.pendingData.Lock()
+		defer ss.pendingData.Unlock()
+		n := 0
+		for _, u := range ss.pendingData.unread {
+			if u.fallbackSlice != nil {
+				n += u.fallbackSlice.size()
+			}
+		}
+		return n
+	}
 	p.realFlush = func() error {
-		if cs.sendBuf.Len() == 0 {
+		n := cs.sendBuf.Len()
+		if n == 0 {
 			return cs.Flush(false)
 		}
+		wantBytes := len(p.avail) + len(p.inflight) + n
 		if e := cs.Flush(false); e != nil {
 			return e
 		}
 		arrived++
 		p.feat["fallback"] = true
 		want := arrived
-		// the reader lags: wait until this flush has been handled by the peer's event loop (a separate
-		// socket read per flush), never for the reader
-		if !vsWait(func() bool { return int(atomic.LoadUint64(&w.server.stats.fallbackReadCount)) >= want+vsBase }, 20*time.Second) {
-			return fmt.Errorf("flush %d did not arrive", want)
+		// the reader lags: wait for the arrival (a separate socket read per flush), never for the reader
+		if !vsWait(func() bool {
+			return int(atomic.LoadUint64(&w.server.stats.fallbackReadCount)) >= want+base && ss.recvBuf.Len()+pendingBytes() >= wantBytes
+		}, 20*time.Second) {
+			return fmt.Errorf("flush %d did not arrive (%d of %d bytes at the receiver)", want, ss.recvBuf.Len()+pendingBytes(), wantBytes)
 		}
 		return nil
 	}
-	vsBase = int(atomic.LoadUint64(&w.server.stats.fallbackReadCount))
 	defer func() {
 		for f := range p.feat {
 			c.Feat = append(c.Feat, f)
@@ -256,7 +273,6 @@ func vsCase(w *vsWorld, rng *vrand, id int, mode string) *vpCase {
 	return c
 }
 
-var vsBase int
 
 // n histories on one session pair
 func vsRun(out *vout, rng *vrand, n, firstID int, mode string) {
